@@ -44,12 +44,12 @@ func genBinder(repo string) (string, error) {
 	}
 	type scalar struct {
 		name, helper, dest string
-		bits            string
-		must            string
+		bits               string
+		must               string
 	}
 	var scalars, slices, oracleScalars, oracleSlices []scalar
-	funcSrc := map[string]string{} // bool, duration, bools, durations: whole source, blanks removed
-	castW := map[string]map[string]int{}  // helper family fn ("int","uint","float") -> dest elem type -> conversion width
+	funcSrc := map[string]string{}              // bool, duration, bools, durations: whole source, blanks removed
+	castW := map[string]map[string]int{}        // helper family fn ("int","uint","float") -> dest elem type -> conversion width
 	sliceBits := map[string]map[string]string{} // "ints"/"uints"/"floats" -> elem type -> bits literal
 	for _, d := range f.Decls {
 		fd, ok := d.(*ast.FuncDecl)
@@ -166,7 +166,7 @@ func genBinder(repo string) (string, error) {
 	// bool (family 3, width 1) and duration (family 4, width 64): the library parser's result must be stored
 	// as it is, only on success (scalar), and a slice must be published only when no error was recorded
 	type orcDesc struct {
-		fam, w      int
+		fam, w       int
 		parse, store string
 	}
 	orcOf := map[string]orcDesc{
@@ -180,9 +180,9 @@ func genBinder(repo string) (string, error) {
 		return "", fmt.Errorf("binder.go: found only %d bool/duration scalar and %d slice forwarding methods", len(oracleScalars), len(oracleSlices))
 	}
 	type extra struct {
-		name           string
+		name              string
 		fam, bits, dw, cw int
-		must           string
+		must              string
 	}
 	var exScalars, exSlices []extra
 	for _, s := range oracleScalars {
